@@ -693,12 +693,13 @@ def check_instance(ctx, label, op, rng, deep=False, fixed=None):
     """The C03 oracle on one operator instance. Returns (non-trivial, evaluated at least once).
     `fixed` = {'x': enc_vals(...)} replays exactly one recorded input."""
     import odl
-    if COVERAGE is not None:
+    if COVERAGE is not None and fixed is None:
         COVERAGE.watch(type(op).__name__, getattr(type(op), '_call', None))
+        coverage_pass(label, op)
     problems = []
     nontrivial = False
     evaluated = False
-    draws = [False, True, 'zero'] if not deep else [False, True, 'zero', False, True, 'small']
+    draws = [False, True, 'zero'] if not deep else [False, True, 'zero', False, 'small']
     if fixed is not None:
         draws = ['fixed']
     functional = is_field(op.range)
@@ -1688,9 +1689,12 @@ def eval_tree(ctx, case, lines, pend):
 
 def run_trees(ctx, count):
     import odl
-    rng = ctx.rng
+    import random
     lines, pend = [], []
-    for _ in range(count):
+    # a FIXED set of trees first (constant seed: every node and leaf kind of TREE_BRANCHES occurs
+    # in it, so the expected-branch obligation never depends on VERIF_SEED), then the seeded ones
+    plan = [random.Random(20260926)] * 160 + [ctx.rng] * count
+    for rng in plan:
         n = rng.choice([1, 2, 3, 4])
         space = odl.rn(n)
         data = dict(space=space, lam=rng.choice([1.0, 0.5, 2.0]), sigma=rng.choice([1.0, 0.5, 2.0]),
@@ -1863,9 +1867,11 @@ def eval_pso(ctx, case, lines, pend):
 
 def run_pso(ctx, count):
     import odl
-    rng = ctx.rng
+    import random
     lines, pend = [], []
-    for _ in range(count):
+    # a FIXED set first (constant seed: every class x mode stratum occurs), then the seeded ones
+    plan = [random.Random(20260927)] * 80 + [ctx.rng] * count
+    for rng in plan:
         n = rng.choice([1, 2, 3])
         space = odl.rn(n)
         data = dict(space=space, lam=rng.choice([1.0, 0.5, 2.0]), sigma=rng.choice([1.0, 0.5, 2.0]),
@@ -2205,6 +2211,7 @@ class CallCoverage(object):
     def __init__(self):
         import sys
         self.counts = {}
+        self.enabled = False  # lines are counted during the deterministic coverage pass only
         self.funcs = {}       # code -> (class label, function)
         self.mon = getattr(sys, 'monitoring', None)
         self.active = False
@@ -2222,6 +2229,8 @@ class CallCoverage(object):
         self.active = True
 
     def _line(self, code, lineno):
+        if not self.enabled:
+            return
         d = self.counts.setdefault(code, {})
         d[lineno] = d.get(lineno, 0) + 1
 
@@ -2297,6 +2306,70 @@ class CallCoverage(object):
         return out, sorted(set(missing))
 
 
+def recipe_inputs(space, label):
+    """Inputs constructed ON PURPOSE (a function of the label only, never of VERIF_SEED): the
+    branch-coverage obligation may only rest on these. Mixed-sign / positive draws from a
+    label-seeded generator, the zero vector, a tiny vector, constant vectors whose entries sum to
+    1 and to 2 (sum constraints, simplex, unit balls: inside / on / outside), unit vectors and a
+    large vector."""
+    import hashlib
+    import random
+    import odl
+    r = random.Random(hashlib.sha256(('recipe:' + label).encode()).digest())
+    out = []
+    try:
+        out.append(rand_elem(space, r, False))
+        out.append(rand_elem(space, r, True))
+    except Exception:
+        return out
+    base = out[0]
+    if hasattr(base, 'space'):
+        try:
+            one = space.one()
+            n = max(1, len(flat(one)))
+            out += [space.zero(), base * 0.015625, one, one * (1.0 / n), one * (2.0 / n),
+                    one * (0.5 / n), base * 64.0, -one]
+            if not isinstance(space, odl.ProductSpace) and hasattr(space, 'shape'):
+                e0 = np.zeros(space.shape, dtype=space.dtype)
+                e0.flat[0] = 1
+                out += [space.element(e0), space.element(-2 * e0), space.element(0.25 * e0)]
+        except Exception:
+            pass
+    else:
+        out += [type(base)(0), type(base)(1), type(base)(-2)]
+    res = []
+    for x in out:
+        try:
+            res.append(x if (not hasattr(x, 'space') or x in space) else space.element(x))
+        except Exception:
+            pass
+    return res
+
+
+def coverage_pass(label, op):
+    """Deterministic calls whose executed lines feed the per-class branch table: op(x),
+    op(x, out=y) and — when domain == range — the aliased op(x, out=x), on the recipe inputs."""
+    if COVERAGE is None or not COVERAGE.active:
+        return
+    functional = is_field(op.range)
+    COVERAGE.enabled = True
+    try:
+        for x in recipe_inputs(op.domain, label):
+            safe_call(op, x)
+            if functional:
+                continue
+            try:
+                y = op.range.element()
+            except Exception:
+                continue
+            safe_call(op, x.copy() if hasattr(x, 'copy') else x, out=y)
+            if hasattr(x, 'space') and op.domain == op.range:
+                xa = x.copy()
+                safe_call(op, xa, out=xa)
+    finally:
+        COVERAGE.enabled = False
+
+
 COVERAGE = None
 
 
@@ -2347,47 +2420,36 @@ def run(ctx):
 
 
 KNOWN_UNREACHED = {
-    # the last `elif` of an exhaustive method chain (central / forward / backward): never false
+    # (the table is fed by the deterministic coverage pass only: recipe inputs that are a function
+    # of the instance label, incl. aliased calls; nothing here depends on VERIF_SEED)
+    # the last `elif` of an exhaustive chain: never false
     "Divergence > finite_diff :: if method == 'backward' [false]": 'exhaustive elif chain',
     "L2Norm :: if self.exponent == np.inf [false]": 'exhaustive elif chain (LpNorm._call)',
-    # helpers called by the operators always with `out`
+    # helpers that the operators always call with `out`
     "Divergence > finite_diff :: if out is None [true]": 'operators always pass out',
     "ProximalConvexConjLinfty > proj_l1 :: if out is None [true]": 'operators always pass out',
-    # aliased calls (`x is out`) are C10's subject; the zoo calls with x and out distinct
-    "ProximalConvexConjKL :: if x is out [true]": 'aliased call: C10',
-    "ProximalConvexConjL1 :: if x is out [true]": 'aliased call: C10',
-    "ProximalConvexConjL2Squared :: if x is out [true]": 'aliased call: C10',
-    "ProximalL1 :: if x is out [true]": 'aliased call: C10',
-    "ProximalL1L2 :: if x is out [true]": 'aliased call: C10',
-    "ProximalL2Squared :: if x is out [true]": 'aliased call: C10',
-    "ProximalLInfty :: if x is out [true]": 'aliased call: C10',
-    # input-dependent (not constructor-dependent) branches, exercised by the C10 / C07 streams
-    "IndicatorSimplex :: if sum_constr and nonneq_constr [true]": 'needs x inside the simplex',
-    "ProximalL2 :: if step < 1.0 [false]": 'needs ||x|| <= sigma*lam (C10 threshold class)',
-    "ProximalL2 :: if x_norm > 0 [false]": 'needs x == g (C10 zero class)',
+    # no constructive recipe
+    "ProximalL2 :: if x_norm > 0 [false]": 'needs ||x - g|| == 0 exactly with the (1 + eps) factor',
     "WaveletTransformInverse :: if n_recon == n_intended + 1 [false]": 'depends on pywt output sizes',
-    # not reachable with library spaces / dtypes
     "ProximalConvexConjKLCrossEntropy :: if not np.issubsctype(self.domain.dtype, np.complexfloating) [false]":
-        'complex domain: scipy.special.lambertw on complex data is outside the factory contract',
-    "ProximalConvexConjLinfty > _const_weight :: if const is None or not space.is_power_space or len(space) == 0 [true]":
-        'product space without a constant weighting',
+        'complex domain: lambertw on complex data is outside the factory contract',
+    "ProximalConvexConjLinfty > _const_weight :: if isinstance(space, ProductSpace) [true]":
+        'linfty proximals on product spaces are not constructible through the zoo plans',
     "ResizingOperatorAdjoint > _inner_weights :: if hasattr(weighting, 'array') [false]":
         'weighting with neither const nor array (custom weighting)',
     "ResizingOperatorAdjoint > _scale_bdry_cells :: if inverse [false]":
-        'the forward scaling is used by ResizingOperator.adjoint.inverse only via another path',
+        'the forward scaling is reached through ResizingOperator.adjoint.inverse only',
     "absolute_op :: if nargin == 1 [false]": 'ufunc functionals with two inputs are not supported',
 }
 
 
 def _run(ctx):
     run_dispatch(ctx)
-    run_trees(ctx, 150 if ctx.quick else 3000)
-    run_pso(ctx, 120 if ctx.quick else 2000)
-    run_wrapper_strata(ctx, 1 if ctx.quick else 6)
+    run_trees(ctx, 150 if ctx.quick else 2000)
+    run_pso(ctx, 120 if ctx.quick else 1200)
+    run_wrapper_strata(ctx, 1 if ctx.quick else 4)
     run_layouts(ctx)
     run_zoo(ctx, deep=not ctx.quick)
-    if not ctx.quick:
-        run_zoo(ctx, deep=True)   # further input draws for every instance
     report_unhit(ctx)
 
 
